@@ -26,10 +26,11 @@ structure St where
   opened : List Nat                 -- peers with the relay protocol open
   deriving Repr, DecidableEq
 
-/-- `PendingTxs::push` (`LinkedHashMap::insert` moves an existing key to the back and the entry
-gets a fresh announced set; then the front is evicted when over the limit) -/
+/-- `PendingTxs::push` (`LinkedHashMap::insert` moves an existing key to the back; the entry
+keeps the peers it was already announced to; then the front is evicted when over the limit) -/
 def push (s : St) (hash cycles outputs : Nat) : St :=
-  let pool := (s.pool.filter (·.hash ≠ hash)) ++ [⟨hash, cycles, outputs, []⟩]
+  let announced := ((s.pool.find? (·.hash = hash)).map (·.announced)).getD []
+  let pool := (s.pool.filter (·.hash ≠ hash)) ++ [⟨hash, cycles, outputs, announced⟩]
   { s with pool := if s.limit < pool.length then pool.drop 1 else pool }
 
 def getPending (s : St) (hash : Nat) : Option Entry := s.pool.find? (·.hash = hash)
@@ -63,10 +64,6 @@ structure Verdicts where
 inductive Reject where
   | nonContextual | deadInput | unknownCell | timeRelative | capacity | script
   deriving Repr, DecidableEq
-
-def firstDup : List OutPointRef → List OutPointRef → Bool
-  | _, [] => false
-  | seen, o :: rest => seen.contains o || firstDup (o :: seen) rest
 
 /-- `resolve_tx`: inputs in order (a repeated input is `Dead`, an unresolvable one `Unknown`),
 then cell deps (dep groups already expanded into `deps` by the caller: group cell first, then its
